@@ -100,6 +100,17 @@ def programs(tier):
                     add(("join", st, ("leaf", other), pred))
                     add(("join", ("leaf", other), st, pred, (True, True)))
                     add(("join", st, ("leaf", other), pred, "apply"))
+        # Engine.transfer with a payload (the documented payload-attaching form) on relations that may already live in the destination
+        for dest in meprogs.ENGINES:
+            add(("xferp", st, dest))
+            for d1 in meprogs.ENGINES:
+                x1 = ("xfer", st, d1)
+                add(("xferp", x1, dest))
+                for l in ("sel a>k", "dedup"):
+                    m1 = _apply(acts, l, x1, None, 2)
+                    if m1 is not None:
+                        add(("xferp", m1, dest))
+                        add(("sel", ("xferp", m1, dest), ("gt", ("ref", "a"), ("lit", "$k3"))))
         # two transfers: start -> transfer -> one operation -> transfer (back or onwards) -> final operation with every option set
         for dest in meprogs.ENGINES:
             x = ("xfer", st, dest)
@@ -298,6 +309,8 @@ def _sig(prog):
         s = op
         if op == "xfer":
             s = f"to:{n[2]}"
+        if op == "xferp":
+            s = f"to+payload:{n[2]}"
         o = n[-1] if isinstance(n[-1], tuple) and len(n[-1]) == 4 and isinstance(n[-1][1], bool) else None
         if o:
             s += f"@{o[0]}{'b' if o[1] else ''}{'t' if o[2] else ''}{'r' if o[3] else ''}"
